@@ -116,6 +116,10 @@ def scenarios_for(seed, nrandom):
     for _ in range(nrandom):                       # random payloads over all byte values
         n = rng.choice([0, 1, 2, 3, 8, 40])
         b = [rng.choice([13, 10, 13, 10, 43, 45, 58, 36, 42, 0, rng.randrange(256)]) for _ in range(n)]
+        if b and all(chr(x).isalnum() or chr(x) in "+-._(" for x in b):
+            # could be read as a number, a bound or an option word: the grammar classifies raw payloads as non-numeric
+            # strings, so such a payload at an integer or option position would be judged against the wrong expectation
+            b.append(0)
         raw = tok("raw")
         raw["raw"] = b
         nm = "".join(chr(x) for x in b) if rng.random() < 0.3 else rng.choice(["ECHO", "SET", "GET", "CONFIG", "FOO", "EXPIRE", "ZADD", "KEYS"])
